@@ -75,6 +75,7 @@ inductive Ev
   | wrote (side tok : Nat) (ok : Bool) -- a one-way write of `side`'s application returned
   | disturbed                         -- the network did something else than deliver the oldest message, or time passed
   | settled (inFlight : Nat)          -- the history is at rest: this many messages are still in flight
+  | stuck (side : Nat)                -- everything is at rest and the layer of `side` has not finished handling a message
   deriving Repr
 
 inductive Class | request | response | other
@@ -161,6 +162,8 @@ def judgeEv (s : JState) : Ev → JState × Option String
   | .finished => (s, if s.open_.isEmpty then none else some s!"hang: calls {s.open_} never returned")
   | .wrote side tok ok => (if ok then { s with wrotes := (side, tok) :: s.wrotes } else s, none)
   | .disturbed => ({ s with disturbed := true }, none)
+  | .stuck side =>
+    (s, some s!"hang: the layer of side {side} never finished handling a message (blocked although nothing else is running)")
   | .settled n =>
     -- the one-way style has no answer to wait for: a write that reported success, in a history without any fault, whose
     -- messages have all been delivered, must have brought its body to the peer's application
